@@ -129,6 +129,108 @@ def scn_rescaled(variant, tree_s, S, K, batch, N_or_cols, real_max=False):
     return scn
 
 
+def scn_rescaled_cut(variant, left_kind, right_kind, S, K, N):
+    """One GENERIC iteration of the node loop of the real rescaled pruning function (body cut verbatim from source) under the
+    ghost invariant  plain L(m) = partials[m]·C(m)  (C(m) = product of the scalers collected in the subtree of m, per site):
+        iteration: exactly one scaler s is appended;  partials'[node]·s·C(left)·C(right) ≡ Felsenstein recursion of L(left), L(right);
+                   no other entry of partials is written;
+        suffix:    result ≡ Σ_n w_n [ log Σ_i pi_i Σ_k p_k partials[root][k,i,n] + Σ_{collected scalers} log s[n] ],
+    i.e. log( root reduction of L ) since the collected scalers multiply to C(root).  Holds for every positive scaler (max contract)."""
+    def scn(mk):
+        from torchtree.evolution import tree_likelihood as tl
+        from vt import loopcut
+        from vt.scenario import slog
+        f = tl.calculate_treelikelihood_discrete_rescaled if variant == "partials" else tl.calculate_treelikelihood_tip_states_discrete_rescaled
+        c = loopcut.cut(f, 0)
+        T = 5
+        left = 1 if left_kind == "tip" else 6
+        right = 3 if right_kind == "tip" else 5
+        node = 7
+        counter = [0]
+        if variant == "partials":
+            mats = mk.real("M", (2 * T - 2, K, S, S), lo=0)
+        else:
+            free = mk.real("M", (2 * T - 2, K, S, S - 1), lo=0, hi=1.0 / S)
+            mats = torch.cat((free, 1.0 - free.sum(-1, keepdim=True)), -1)
+        freqs = mk.real("pi", (1, S), lo=0)
+        props = mk.real("w", (K, 1, 1), lo=0)
+        weights = mk.real("wt", (N,), lo=0)
+        partials = [None] * (2 * T - 1)
+        sentinels = {}
+        for m in range(2 * T - 1):
+            if m not in (left, right):
+                sentinels[m] = partials[m] = object()
+        R, C = {}, {}
+        for nm, m, kind, st in (("Rl", left, left_kind, [0, S]), ("Rr", right, right_kind, [S, 1])):
+            if kind == "tip":
+                R[m] = partials[m] = (mk.real(nm, (S, N), lo=0, lo_incl=True) if variant == "partials" else torch.tensor((st * N)[:N], dtype=torch.long))
+                C[m] = None   # tips are not rescaled: C = 1
+            else:
+                R[m] = partials[m] = mk.real(nm, (K, S, N), lo=0, lo_incl=True)
+                C[m] = mk.real("C" + nm, (N,), lo=0)
+        post = [[5, 0, 2], [6, 5, 4], [node, left, right], [8, 7, 6]]
+        extra = {"max": _max_contract(mk, counter)} if mk.symbolic else None
+        with symbolic_factories(tl, extra=extra, enabled=mk.symbolic):
+            state = c.prefix(partials, weights, post, mats, freqs, props)
+            n_before = len(state["scalers"])
+            state.update(node=node, left=left, right=right)
+            tag, st2 = c.body(state)
+            out = st2["partials"]
+            scalers = st2["scalers"]
+            cl = [("true", "loop_shape", c.kind == "for" and tag == "next", c.header),
+                  ("true", "exactly_one_scaler_collected", len(scalers) == n_before + 1, "%d -> %d" % (n_before, len(scalers))),
+                  ("true", "frame_only_partials[node]_written", all(out[m] is sentinels[m] for m in sentinels if m != node) and out[left] is R[left] and out[right] is R[right])]
+            if len(scalers) != n_before + 1 or tuple(out[node].shape) != (K, S, N):
+                return cl
+            sc = scalers[-1]
+
+            def Lval(m, kind, k, j, n):
+                if kind == "tip":
+                    if variant == "states":
+                        s_ = int(R[m][n])
+                        return 1 if (s_ >= S or s_ == j) else 0
+                    return el(R[m], (j, n))
+                return el(R[m], (k, j, n)) * el(C[m], (n,))
+            code, spec = [], []
+            for k in range(K):
+                for i in range(S):
+                    for n in range(N):
+                        a = 0
+                        for j in range(S):
+                            a = a + el(mats, (left, k, i, j)) * Lval(left, left_kind, k, j, n)
+                        b = 0
+                        for j in range(S):
+                            b = b + el(mats, (right, k, i, j)) * Lval(right, right_kind, k, j, n)
+                        spec.append(a * b)
+                        cprod = el(sc.reshape(-1) if not mk.symbolic else sc.reshape(-1), (n,))
+                        for m, kind in ((left, left_kind), (right, right_kind)):
+                            if kind != "tip":
+                                cprod = cprod * el(C[m], (n,))
+                        code.append(el(out[node], (k, i, n)) * cprod)
+            cl.append(("eq", "iteration_keeps_plain_equals_rescaled_times_scalers", code, spec))
+            # suffix: generic root vector, generic collected scalers
+            root = mk.real("Rroot", (K, S, N), lo=0, lo_incl=True)
+            s1 = mk.real("s1", (1, N), lo=0)
+            s2 = mk.real("s2", (1, N), lo=0)
+            st3 = dict(st2)
+            pl = list(out)
+            pl[node] = root
+            st3["partials"] = pl
+            st3["scalers"] = [s1, s2]
+            st3["post_indexing"] = [[node, left, right]]
+            res = c.suffix(st3)
+        want = 0
+        for n in range(N):
+            tot = 0
+            for i in range(S):
+                for k in range(K):
+                    tot = tot + el(freqs, (0, i)) * el(props, (k, 0, 0)) * el(root, (k, i, n))
+            want = want + el(weights, (n,)) * (slog(tot) + slog(el(s1, (0, n))) + slog(el(s2, (0, n))))
+        cl.append(("eq", "suffix_adds_the_log_scalers_per_site", res, [want]))
+        return cl
+    return scn
+
+
 # ----------------------------------------------------------------------------------------------
 
 
@@ -397,6 +499,12 @@ def obligations(tier, seed):
                 add("C03.equiv.states_rescaled[tree=%s,S=2,K=2]" % ts, ("states", ts, 2, 2, (), cols), "rescaled ≡ plain (tip states)")
             if k % 4 == 0:
                 add("C03.equiv.rescaled[tree=%s,S=2,K=1,batch=(2,)]" % ts, ("partials", ts, 2, 1, (2,), 1), "rescaled ≡ plain (batched)")
+    for variant in ("partials", "states"):
+        for lk in ("tip", "internal"):
+            for rk in ("tip", "internal"):
+                obs.append(scenario_ob("C03", "C03.equiv.cut.%s[left=%s,right=%s]" % (variant, lk, rk), "U", "scn_rescaled_cut", (variant, lk, rk, 2, 2, 2),
+                                       clause="generic iteration of the rescaled pruning loop keeps plain = rescaled x scalers; suffix adds the log scalers (unbounded in taxa)",
+                                       funcs=FUNCS, seed=seed))
     obs.append(ob_sticky(False))
     obs.append(ob_sticky(True))
     for which in ("single", "all_underflow", "mixed", "mixed_reversed", "none"):
